@@ -18,9 +18,13 @@ import (
 	"context"
 	"io"
 	"sync"
+	"time"
 
 	"github.com/apache/thrift/lib/go/thrift"
 )
+
+// readLoopExitWait bounds how long Close waits for the read loop to finish.
+const readLoopExitWait = 250 * time.Millisecond
 
 type fAdapterTransportFactory struct{}
 
@@ -43,6 +47,7 @@ type fAdapterTransport struct {
 	isOpen             bool
 	mu                 sync.RWMutex
 	closeSignal        chan struct{}
+	loopDone           chan struct{}
 	closeChan          chan error
 	monitorCloseSignal chan<- error
 	registry           fRegistry
@@ -83,15 +88,27 @@ func (f *fAdapterTransport) Open() error {
 	// the next close after a reopen block forever while holding the lock.
 	closeSignal := make(chan struct{}, 1)
 	f.closeSignal = closeSignal
-	go f.readLoop(closeSignal)
+	f.loopDone = make(chan struct{})
+	go f.readLoop(closeSignal, f.loopDone)
 	f.isOpen = true
 	f.closeChan = make(chan error, 1)
 	return nil
 }
 
-func (f *fAdapterTransport) readLoop(closeSignal <-chan struct{}) {
+func (f *fAdapterTransport) readLoop(closeSignal chan struct{}, done chan struct{}) {
+	defer close(done)
 	framedTransport := NewTFramedTransport(f.transport)
 	for {
+		// A loop whose session is over must not read from the stream of a
+		// later session (the transport may have been closed and opened again
+		// before this goroutine got to run).
+		f.mu.RLock()
+		stale := f.closeSignal != closeSignal
+		f.mu.RUnlock()
+		if stale {
+			return
+		}
+
 		frame, err := f.readFrame(framedTransport)
 		if err != nil {
 			// First check if the transport was closed.
@@ -104,19 +121,19 @@ func (f *fAdapterTransport) readLoop(closeSignal <-chan struct{}) {
 
 			if err, ok := err.(thrift.TTransportException); ok && err.TypeId() == TRANSPORT_EXCEPTION_END_OF_FILE {
 				// EOF indicates remote peer disconnected.
-				f.Close()
+				f.closeSession(closeSignal, nil)
 				return
 			}
 
 			logger().Error("frugal: error reading protocol frame, closing transport: ", err)
-			f.close(err)
+			f.closeSession(closeSignal, err)
 			return
 		}
 
 		if err := f.registry.Execute(frame); err != nil {
 			// An error here indicates an unrecoverable error, teardown transport.
 			logger().Error("frugal: closing transport due to unrecoverable error processing frame: ", err)
-			f.close(err)
+			f.closeSession(closeSignal, err)
 			return
 		}
 	}
@@ -149,8 +166,36 @@ func (f *fAdapterTransport) Close() error {
 
 func (f *fAdapterTransport) close(cause error) error {
 	f.mu.Lock()
-	defer f.mu.Unlock()
+	err := f.closeLocked(cause)
+	done := f.loopDone
+	f.mu.Unlock()
+	if err == nil && done != nil {
+		// Closing the underlying transport makes the read loop's pending read
+		// fail. Wait for the loop to finish so that it cannot read from the
+		// stream of a session opened afterwards (bounded, in case the
+		// underlying transport does not interrupt a pending read).
+		select {
+		case <-done:
+		case <-time.After(readLoopExitWait):
+			logger().Warn("frugal: read loop still running after close")
+		}
+	}
+	return err
+}
 
+// closeSession closes the transport on behalf of the read loop of the session
+// identified by its close signal. A loop that outlived its session (the
+// transport was closed and opened again in the meantime) closes nothing.
+func (f *fAdapterTransport) closeSession(session chan struct{}, cause error) error {
+	f.mu.Lock()
+	defer f.mu.Unlock()
+	if f.closeSignal != session {
+		return thrift.NewTTransportException(TRANSPORT_EXCEPTION_NOT_OPEN, "Transport not open")
+	}
+	return f.closeLocked(cause)
+}
+
+func (f *fAdapterTransport) closeLocked(cause error) error {
 	if !f.isOpen {
 		return thrift.NewTTransportException(TRANSPORT_EXCEPTION_NOT_OPEN, "Transport not open")
 	}
